@@ -394,5 +394,19 @@ def _run(case: dict, env: core.Env, fs: Any, r: random.Random) -> None:
                 return
         if not check_contexts(after_tag):
             return
+    # a view whose body asks for the current schema answers with the schema of whoever reads it
+    full = [i for i in range(len(conns)) if ctx[i][0] is not None and ctx[i][1] is not None and ctx[i][1] in cat.get(ctx[i][0], {})]
+    if full:
+        i0 = full[0]
+        vname = f"{ctx[i0][0]}.{ctx[i0][1]}.VCTX"
+        o = core.run_stmt(conns[i0].cursor(), f"CREATE OR REPLACE VIEW {vname} AS SELECT CURRENT_DATABASE() AS D, CURRENT_SCHEMA() AS S")
+        if o["ok"]:
+            for i in full:
+                env.count("cmp_current_fn")
+                got = core.run_stmt(conns[i].cursor(), f"SELECT D, S FROM {vname}")
+                if got["ok"] and got["rows"] != [(ctx[i][0], ctx[i][1])]:
+                    env.witness("C03/context/current-functions-inside-a-view", f"conn{i} (context {ctx[i]}) reads {vname} (made by conn{i0} in {ctx[i0]}): {got['rows']}")
+                    break
+            conns[i0].cursor().execute(f"DROP VIEW {vname}")
     if ctx_changed and located:
         env.nontrivial(case)
